@@ -123,16 +123,27 @@ static void destroy(TickitPen *pen)
   free(pen);
 }
 
+/* A change handler may drop the last reference to the pen */
+static void run_change_events(TickitPen *pen)
+{
+  tickit_pen_ref(pen);
+  run_events(pen, TICKIT_PEN_ON_CHANGE, NULL);
+  tickit_pen_unref(pen);
+}
+
 static void changed(TickitPen *pen)
 {
   if(!pen->freezecount)
-    run_events(pen, TICKIT_PEN_ON_CHANGE, NULL);
+    run_change_events(pen);
   else
     pen->changed = true;
 }
 
+/* A frozen pen is held: change handlers that run in between, or at the thaw,
+ * may drop the last reference to it */
 static void freeze(TickitPen *pen)
 {
+  tickit_pen_ref(pen);
   pen->freezecount++;
 }
 
@@ -140,9 +151,10 @@ static void thaw(TickitPen *pen)
 {
   pen->freezecount--;
   if(!pen->freezecount && pen->changed) {
-    run_events(pen, TICKIT_PEN_ON_CHANGE, NULL);
     pen->changed = false;
+    run_change_events(pen);
   }
+  tickit_pen_unref(pen);
 }
 
 TickitPen *tickit_pen_ref(TickitPen *pen)
@@ -317,7 +329,7 @@ void tickit_pen_set_colour_attr(TickitPen *pen, TickitPenAttr attr, int val)
     default:
       return;
   }
-  run_events(pen, TICKIT_PEN_ON_CHANGE, NULL);
+  run_change_events(pen);
 }
 
 bool tickit_pen_has_colour_attr_rgb8(const TickitPen *pen, TickitPenAttr attr)
@@ -453,8 +465,13 @@ void tickit_pen_clear_attr(TickitPen *pen, TickitPenAttr attr)
 
 void tickit_pen_clear(TickitPen *pen)
 {
+  /* Every attribute cleared runs the change handlers */
+  tickit_pen_ref(pen);
+
   for(TickitPenAttr attr = 1; attr < TICKIT_N_PEN_ATTRS; attr++)
     tickit_pen_clear_attr(pen, attr);
+
+  tickit_pen_unref(pen);
 }
 
 bool tickit_pen_equiv_attr(const TickitPen *a, const TickitPen *b, TickitPenAttr attr)
